@@ -296,14 +296,24 @@ def robust(ctx, args):
     # ---- third phase: generic damage of recorded FACTS (numbers, byte arrays, flags, strings) in the traces of the
     # function tables, the CLI, the validation tables, the sink-fault corpus and the date table: whatever the
     # implementation is reported to have returned, the judge must evaluate ----
-    def damage(v, rng, depth=0):
+    def damage(v, rng, depth=0, byte=False):
+        # what the harness can actually record: bytes stay bytes, the "panic" variant always comes with its message
         if isinstance(v, bool):
             return (not v) if rng.random() < 0.5 else v
         if isinstance(v, int):
+            if byte:
+                return rng.choice([0, 1, (v + 1) % 256, 255, 128]) if rng.random() < 0.6 else v
             return rng.choice([0, 1, v + 1, max(0, v - 1), 255, 256, 65535, 10 ** 9, -1]) if rng.random() < 0.6 else v
         if isinstance(v, str):
-            return rng.choice(['', 'x', v + 'x', 'panic', 'ok']) if rng.random() < 0.3 else v
+            return rng.choice(['', 'x', v + 'x', 'ok']) if (rng.random() < 0.3 and v != 'panic') else v
         if isinstance(v, list):
+            if v and all(isinstance(x, int) and not isinstance(x, bool) and 0 <= x <= 255 for x in v):
+                r = rng.random()
+                if r < 0.25:
+                    return v[:rng.randrange(0, len(v))]
+                if r < 0.4:
+                    return v + [v[-1]]
+                return [damage(x, rng, depth + 1, True) if rng.random() < 0.3 else x for x in v]
             r = rng.random()
             if r < 0.25 and v:
                 return v[:rng.randrange(0, len(v))]
